@@ -603,6 +603,296 @@ def h6_copy(ctx, reach):
     ctx.floor("H6", k, 5, "node classes relying on TreeNode.copy_from")
 
 
+# ------------------------------------------------------------------------------------------------ H10 / H11
+PARTIAL_REMOVALS = {"remove": "raises KeyError/ValueError when the element is absent",
+                    "pop": "raises KeyError when the key is absent (no default given)"}
+
+
+def _partial_release(m, fi):
+    """(field, op) if the method's body removes its parameter from a self container with an operation that raises when
+    the element is absent (set.remove / list.remove / dict.pop without default / del self.F[p])."""
+    ps = [p for p in func_params(fi.node) if p != "self"]
+    for n in walk_no_nested(fi.node):
+        if isinstance(n, ast.Call) and isinstance(n.func, ast.Attribute) and n.func.attr in PARTIAL_REMOVALS \
+                and self_attr(n.func.value) and len(n.args) == 1 and isinstance(n.args[0], ast.Name) and n.args[0].id in ps \
+                and not n.keywords:
+            return self_attr(n.func.value), n.func.attr
+        if isinstance(n, ast.Delete):
+            for t in n.targets:
+                if isinstance(t, ast.Subscript) and self_attr(t.value) and isinstance(t.slice, ast.Name) and t.slice.id in ps:
+                    return self_attr(t.value), "del"
+    return None
+
+
+def _field_views(m, q, field):
+    """Names under which instances of q expose the container `field`: the field itself and properties returning it."""
+    out = {field}
+    for k in m.c3(q):
+        if k not in m.attrs:
+            continue
+        for name, (kind, v) in m.attrs[k].items():
+            if kind == "def" and any(dotted(d) == "property" for d in v.node.decorator_list):
+                rets = [r for r in walk_no_nested(v.node) if isinstance(r, ast.Return) and r.value is not None]
+                if rets and all(self_attr(r.value) == field for r in rets):
+                    out.add(name)
+    return out
+
+
+def h10_release(ctx, cg):
+    m = ctx.model
+    ctx.rule("H10", "release only what was acquired: a context manager whose __exit__ calls a release method that raises on an "
+                    "absent element (set.remove, dict.pop without default, del) must restrict the released elements to those "
+                    "its own __enter__ newly added - `for X in <own> - <snapshot>` with the snapshot copied from the shared "
+                    "container before the adds - or guard each release with a membership test; printing contexts nest "
+                    "(Edit.print -> formatter -> sub-edit print), so an unconditional release of the same mark raises on "
+                    "the outer exit")
+    n = 0
+    for q in sorted(m.classes):
+        a = m.attrs[q]
+        if not ("__enter__" in a and "__exit__" in a and a["__enter__"][0] == "def" and a["__exit__"][0] == "def"):
+            continue
+        en, ex = a["__enter__"][1], a["__exit__"][1]
+        short = q.rsplit(".", 1)[-1]
+        for c in walk_no_nested(ex.node):
+            if not (isinstance(c, ast.Call) and isinstance(c.func, ast.Attribute) and self_attr(c.func.value)
+                    and len(c.args) == 1):
+                continue
+            holder = self_attr(c.func.value)
+            hq = cg.attr_type(q, holder)
+            target = m.method(hq, c.func.attr) if hq else None
+            if target is None:
+                continue
+            pr = _partial_release(m, target)
+            if pr is None:
+                continue
+            n += 1
+            field, op = pr
+            views = _field_views(m, hq, field)
+            arg = c.args[0]
+            # enclosing for-loop whose target is the released element
+            loop = parent(c)
+            while loop is not None and not (isinstance(loop, ast.For) and isinstance(loop.target, ast.Name)
+                                            and isinstance(arg, ast.Name) and loop.target.id == arg.id):
+                loop = parent(loop)
+            ok = False
+            why = ""
+            # (a) membership guard
+            g = parent(c)
+            while g is not None and g is not ex.node:
+                if isinstance(g, ast.If) and isinstance(g.test, ast.Compare) and len(g.test.ops) == 1 \
+                        and isinstance(g.test.ops[0], ast.In) and norm(g.test.left) == norm(arg) \
+                        and isinstance(g.test.comparators[0], ast.Attribute) and g.test.comparators[0].attr in views:
+                    ok, why = True, "each release is guarded by a membership test"
+                g = parent(g)
+            # (b) domain is own - snapshot
+            if not ok and loop is not None and isinstance(loop.iter, ast.BinOp) and isinstance(loop.iter.op, ast.Sub) \
+                    and self_attr(loop.iter.right):
+                snap = self_attr(loop.iter.right)
+                own = norm(loop.iter.left)
+                assigns = [s for s in en.node.body if isinstance(s, (ast.Assign, ast.AnnAssign))
+                           and any(self_attr(t) == snap for t in (s.targets if isinstance(s, ast.Assign) else [s.target]))]
+                def is_copy(v):
+                    if isinstance(v, ast.Call) and dotted(v.func) in ("set", "frozenset", "list", "tuple", "dict") and len(v.args) == 1:
+                        v = v.args[0]
+                    elif isinstance(v, ast.Call) and isinstance(v.func, ast.Attribute) and v.func.attr == "copy" and not v.args:
+                        v = v.func.value
+                    else:
+                        return False
+                    return isinstance(v, ast.Attribute) and v.attr in views and self_attr(v.value) == holder
+                adds = [i for i, s in enumerate(en.node.body) for k in ast.walk(s)
+                        if isinstance(k, ast.Call) and isinstance(k.func, ast.Attribute) and self_attr(k.func.value) == holder
+                        and k.func.attr not in views]
+                first_add = min(adds) if adds else len(en.node.body)
+                good = [s for s in assigns if s.value is not None and is_copy(s.value) and en.node.body.index(s) < first_add]
+                if good and len(good) == len(assigns):
+                    ok, why = True, (f"released elements are `{own} - self.{snap}`; self.{snap} is a copy of the shared "
+                                     f"container taken in __enter__ before anything is added")
+                elif assigns:
+                    why = (f"self.{snap} is not a copy of self.{holder}'s container taken before the adds in __enter__")
+                else:
+                    why = f"self.{snap} is never assigned in __enter__"
+            if ok:
+                ctx.proved("H10", ex.file, ex.short, c, f"{short}: self.{holder}.{c.func.attr}", why)
+            else:
+                tshort = target.qual.rsplit(".", 2)[-2] + "." + target.qual.rsplit(".", 1)[-1]
+                ctx.violation("H10", ex.file, ex.short, c, f"{short}: self.{holder}.{c.func.attr}",
+                              f"{short}.__exit__ calls {tshort}, which performs `self.{field}.{op}(...)` "
+                              f"({PARTIAL_REMOVALS.get(op, 'raises when absent')}), for elements that an enclosing context "
+                              f"of the same kind may already have added and will release again"
+                              + (f": {why}" if why else ": the released set is not reduced by a snapshot taken on entry") +
+                              "; nested contexts for the same mark occur when an edit prints a sub-edit inside its own "
+                              "strike/underline context (CSV leaf cells, coloured full diff)")
+    ctx.floor("H10", n, 1, "context managers releasing through a partial removal")
+
+
+ENCODER_DOMAINS = {
+    # encoder -> (module whose source states the domain, function holding the type switch)
+    "plistlib.dumps": ("plistlib", "write_value"),
+    "json.dumps": ("json.encoder", "_iterencode"),
+}
+TOTAL_ENCODERS = {"yaml.dump": "the default Dumper represents arbitrary objects", "str": "total", "repr": "total",
+                  "html.escape": "applied to str(...)"}
+LEAF_EXEMPT = {"CyclicReference": "created only for identity cycles in object graphs handed to the builder by library users; "
+                                  "the CLI's only use of the builder is the pickle AST, which is a tree"}
+
+
+def _encoder_domain(enc):
+    """Type names the encoder's type switch accepts, read from the library source (isinstance tests and `is` constants)."""
+    from .. import extlib
+    modname, fname = ENCODER_DOMAINS[enc]
+    path = extlib.source_of(modname)
+    if path is None:
+        return None
+    tree = ast.parse(open(path, encoding="utf-8").read())
+    dom = set()
+    found = False
+    for f in ast.walk(tree):
+        if isinstance(f, ast.FunctionDef) and f.name == fname:
+            found = True
+            subject = f.args.args[-1].arg if f.args.args[0].arg == "self" and len(f.args.args) == 2 else f.args.args[0].arg
+            for n in ast.walk(f):
+                if isinstance(n, ast.Call) and dotted(n.func) == "isinstance" and len(n.args) == 2 \
+                        and isinstance(n.args[0], ast.Name) and n.args[0].id == subject:
+                    t = n.args[1]
+                    for e in (t.elts if isinstance(t, ast.Tuple) else [t]):
+                        dom.add((dotted(e) or "").rsplit(".", 1)[-1])
+                if isinstance(n, ast.Compare) and isinstance(n.left, ast.Name) and n.left.id == subject \
+                        and isinstance(n.ops[0], ast.Is) and isinstance(n.comparators[0], ast.Constant):
+                    v = n.comparators[0].value
+                    dom.add("NoneType" if v is None else type(v).__name__)
+    return dom if found else None
+
+
+def _leaf_object_types(m, q):
+    """Static type names of `.object` for a leaf class, from the argument its __init__ hands to LeafNode.__init__."""
+    init = m.attrs[q].get("__init__")
+    if not init or init[0] != "def":
+        return None
+    fn = init[1].node
+    for c in walk_no_nested(fn):
+        if isinstance(c, ast.Call) and isinstance(c.func, ast.Attribute) and c.func.attr == "__init__" \
+                and isinstance(c.func.value, ast.Call) and dotted(c.func.value.func) == "super" and c.args:
+            a = c.args[0]
+            if isinstance(a, ast.Constant):
+                return {"NoneType" if a.value is None else type(a.value).__name__}
+            if isinstance(a, ast.Name):
+                for p in fn.args.args:
+                    if p.arg == a.id and p.annotation is not None:
+                        ann = p.annotation
+                        if isinstance(ann, ast.Subscript) and dotted(ann.value) in ("Union", "typing.Union", "Optional", "typing.Optional"):
+                            elts = ann.slice.elts if isinstance(ann.slice, ast.Tuple) else [ann.slice]
+                            out = {dotted(e) for e in elts if dotted(e)}
+                            if dotted(ann.value).endswith("Optional"):
+                                out.add("NoneType")
+                            return out
+                        if dotted(ann):
+                            return {dotted(ann)}
+            if isinstance(a, ast.Call) and dotted(a.func):
+                return {dotted(a.func).rsplit(".", 1)[-1]}
+    return None
+
+
+def _object_encoders(m, fi, pname, depth=0):
+    """Encoders that receive `<pname>.object` (or, inside a helper, the parameter it was passed as) in function fi."""
+    out = []
+
+    def is_obj(e, var):
+        if var is None:
+            return isinstance(e, ast.Attribute) and e.attr == "object" and isinstance(e.value, ast.Name) and e.value.id == pname
+        return isinstance(e, ast.Name) and e.id == var
+
+    def scan(fi, var, depth):
+        for c in walk_no_nested(fi.node):
+            if not isinstance(c, ast.Call):
+                continue
+            hit = [i for i, a in enumerate(c.args) if is_obj(a, var)]
+            if not hit:
+                continue
+            r = m.resolve_expr(fi.module, c.func)
+            name = r[0][1] if r and r[0] and r[0][0] == "ext" else None
+            if name in ENCODER_DOMAINS or name in TOTAL_ENCODERS:
+                out.append((name, c, fi))
+            elif isinstance(c.func, ast.Attribute) and dotted(c.func.value) in ("self", "cls") and fi.cls and depth < 2:
+                h = m.method(fi.cls, c.func.attr)
+                if h is not None:
+                    ps = [p for p in func_params(h.node) if p not in ("self", "cls")]
+                    idx = hit[0]
+                    if idx < len(ps):
+                        save = var
+                        scan_helper(h, ps[idx], depth + 1)
+
+    def scan_helper(h, v, depth):
+        nonlocal_var = v
+        for c in walk_no_nested(h.node):
+            if isinstance(c, ast.Call) and any(isinstance(a, ast.Name) and a.id == nonlocal_var for a in c.args):
+                r = m.resolve_expr(h.module, c.func)
+                name = r[0][1] if r and r[0] and r[0][0] == "ext" else None
+                if name in ENCODER_DOMAINS or name in TOTAL_ENCODERS:
+                    out.append((name, c, h))
+    scan(fi, None, depth)
+    return out
+
+
+def h11_leaf_domains(ctx, roots):
+    m = ctx.model
+    ctx.rule("H11", "encoder domain: when the handler the protocol selects for a leaf class hands node.object to a library "
+                    "encoder whose type switch (read from the library's source) ends in `raise TypeError`, the static type of "
+                    "that leaf class's object (the argument its constructor passes to LeafNode.__init__) is one the switch "
+                    "accepts")
+    leaf = m.find_class("LeafNode")
+    n = 0
+    domains = {}
+    seen = set()
+    for rq, root in sorted(roots.items()):
+        for nq in sorted(m.subclasses(leaf, strict=True)):
+            short = nq.rsplit(".", 1)[-1]
+            if m.is_abstract(nq) or m.is_subclass(nq, EDITED):
+                continue
+            types = _leaf_object_types(m, nq)
+            if types is None:
+                continue
+            for edited in (False, True):
+                r = m.get_formatter(m.node_mro_names(nq, edited), root)
+                if r is None:
+                    continue
+                h = m.method(r[0].q, r[1])
+                if h is None:
+                    continue
+                ps = [p for p in func_params(h.node) if p != "self"]
+                if len(ps) < 2:
+                    continue
+                for enc, call, where in _object_encoders(m, h, ps[1]):
+                    key = (h.qual, nq, enc)
+                    if key in seen:
+                        continue
+                    seen.add(key)
+                    n += 1
+                    hs = f"{r[0].name}.{r[1]}"
+                    if enc in TOTAL_ENCODERS:
+                        ctx.proved("H11", where.file, where.short, call, f"{short} -> {enc}", f"{hs} hands {short}.object to {enc}: {TOTAL_ENCODERS[enc]}", nontrivial=False)
+                        continue
+                    if enc not in domains:
+                        domains[enc] = _encoder_domain(enc)
+                    dom = domains[enc]
+                    if dom is None:
+                        ctx.inconclusive("H11", where.file, where.short, call, f"{short} -> {enc}", f"cannot read the type switch of {enc} from the library source")
+                        continue
+                    bad = sorted(t for t in types if t not in dom)
+                    if short in LEAF_EXEMPT:
+                        ctx.note(f"H11: {short} -> {enc} not decided: {LEAF_EXEMPT[short]}")
+                        continue
+                    if bad:
+                        ctx.violation("H11", where.file, where.short, call, f"{short} -> {enc}",
+                                      f"the protocol selects {hs} for {short} under {rq.rsplit('.', 1)[-1]}; it hands node.object "
+                                      f"(static type {'/'.join(sorted(types))}) to {enc}, whose type switch in "
+                                      f"{ENCODER_DOMAINS[enc][0]}.{ENCODER_DOMAINS[enc][1]} accepts only {sorted(dom)} and raises "
+                                      f"TypeError otherwise: rendering a document containing {'/'.join(bad)} in this format fails")
+                    else:
+                        ctx.proved("H11", where.file, where.short, call, f"{short} -> {enc}",
+                                   f"{hs}: {'/'.join(sorted(types))} is accepted by {enc}'s type switch")
+    ctx.floor("H11", n, 8, "(handler, leaf class, encoder) triples")
+
+
 def run(ctx):
     m = ctx.model
     ctx.extra = {}
@@ -628,6 +918,8 @@ def run(ctx):
     e5_cycles(ctx, roots, node_classes)
     h8_overrides(ctx)
     h9_palettes(ctx)
+    h10_release(ctx, cg)
+    h11_leaf_domains(ctx, roots)
     ctx.assume("value-dependent failures inside third-party encoders (yaml.dump, plistlib.dumps, json.dumps on exotic "
                "objects) are not decided")
     ctx.assume("the engine's model of the formatting protocol (_get_formatter port) - validated against the runtime in "
